@@ -14,6 +14,7 @@ fn predicates() -> gen::VS {
         3 => Just(json!({"var": ""})),                          // identity truthiness
         2 => Just(json!({">": [{"var": ""}, 1]})),
         2 => Just(json!({"===": [{"var": ""}, "é"]})),
+        1 => select(vec![json!(1), json!("1"), json!(0), json!("0"), Value::Null, json!("null"), json!(true), json!("true")]).prop_map(|x| json!({"===": [{"var": ""}, x]})),
         1 => Just(json!({"===": [{"var": ""}, "😀"]})),
         1 => Just(json!({"in": [{"var": ""}, "aé日😀"]})),
         1 => Just(json!({"in": [{"var": ""}, [1, "a", "é", "😀", null]]})),
@@ -41,6 +42,7 @@ fn element_values() -> gen::VS {
         3 => gen::small_ints(),
         2 => select(vec![json!(0), json!(""), json!([]), Value::Null, json!(false)]),
         2 => select(vec![json!("a"), json!("é"), json!("😀"), json!("b"), json!(2), json!(true), json!([0]), json!({})]),
+        2 => super::c13::twin_scalars(),
         1 => Just(json!({"a": 1})),
         2 => select(vec![json!({"pick": "x", "v_x": 0, "v_y": 1, "x": 0, "y": 1}), json!({"pick": "y", "v_x": 0, "v_y": 1, "x": 0, "y": 1}), json!({"pick": "a", "a": ""}), json!({"max": 10}), json!({"in": "stock"})]),
         1 => gen::op_shaped(),
@@ -174,6 +176,24 @@ fn coll_has_multibyte(coll: &Value, data: &Value) -> bool {
     !s.is_ascii()
 }
 
+/// long collections of twin scalars: quantifiers have no size threshold and no per-element shortcut
+fn gen_long_quant() -> BoxedStrategy<Value> {
+    let pred = prop_oneof![
+        3 => Just(json!({"var": ""})),
+        2 => select(vec![json!(1), json!("1"), json!(0), json!("0"), Value::Null, json!("null")]).prop_map(|x| json!({"===": [{"var": ""}, x]})),
+        1 => Just(json!({"!": [{"var": ""}]})),
+        1 => Just(json!({"in": [{"var": ""}, ["0", 1, "null"]]})),
+    ];
+    (proptest::collection::vec(super::c13::twin_scalars(), 2..=5), select(vec![63usize, 64, 65, 70, 100, 128, 129, 255, 256, 257, 300]), pred, any::<bool>(), any::<u16>())
+        .prop_map(|(pool, n, p, shared_first, odd)| {
+            // mostly one value, the odd one out late in the collection
+            let at = (odd as usize) % n;
+            let xs: Vec<Value> = (0..n).map(|i| if i == at || (!shared_first && i % 9 == 4) { pool[1 % pool.len()].clone() } else { pool[0].clone() }).collect();
+            json!({"coll": {"var": "xs"}, "pred": p, "data": outer(Value::Array(xs)), "kind": "computed array (long, twin scalars)"})
+        })
+        .boxed()
+}
+
 fn gen_quant() -> BoxedStrategy<Value> {
     (collections(), predicates()).prop_map(|((coll, data, kind), pred)| json!({"coll": coll, "pred": pred, "data": data, "kind": kind})).boxed()
 }
@@ -258,6 +278,18 @@ pub fn property() -> Property {
                 check: check_quant,
                 quick: 150_000,
                 thorough: 8_000_000,
+                small_stack: false,
+            },
+            Sub {
+                name: "long_collections",
+                about: "all / some / none over computed collections of 63-300 elements that are one twin scalar except for its other spelling at a late position (0 among \"0\"s, null among \"null\"s ...), with identity, strict-equality, negation and membership predicates; model and dualities.",
+                nontrivial: "every case.",
+                strategy: Some(gen_long_quant),
+                fixed: None,
+                fixed_exhaustive: false,
+                check: check_quant,
+                quick: 3_000,
+                thorough: 150_000,
                 small_stack: false,
             },
             Sub {
